@@ -136,6 +136,13 @@ func BatchIsValidMaps(
 				return err
 			}
 
+			// NOTE the source must serve the BlockMap of the requested height;
+			// otherwise the slot of this height stays empty and nothing is
+			// validated across it.
+			if h := m.Manifest().Height(); h != height {
+				return util.ErrInvalid.Errorf("unexpected height of BlockMap, %d != %d", h, height)
+			}
+
 			if err := func() error {
 				validateLock.Lock()
 				defer validateLock.Unlock()
